@@ -50,10 +50,11 @@ def buf_type(b):
     return T3 if b.startswith("%a") else T1
 
 
-def default_profile(rng):
+def default_profile(rng, tier="quick"):
+    big = tier == "thorough" and rng.random() < 0.3
     return {
-        "max_depth": rng.choice([0, 1, 1, 2, 2, 3]),
-        "top_stmts": rng.randint(2, 6),
+        "max_depth": rng.choice([3, 4]) if big else rng.choice([0, 1, 1, 2, 2, 3]),
+        "top_stmts": rng.randint(5, 9) if big else rng.randint(2, 6),
         "w_copy": rng.choice([3, 4, 5]),
         "w_gen": rng.choice([2, 4, 5]),
         "w_sync": rng.choice([0, 0, 1, 2]),
@@ -62,7 +63,7 @@ def default_profile(rng):
         "w_if": rng.choice([0, 0, 1, 2]),
         "w_dealloc": 0,
         "gen2": rng.random() < 0.3,  # generics with two inputs
-        "max_stmts": 16,
+        "max_stmts": 28 if big else 16,
         "zero_trips": True,
         "nested_loops": True,
         "l3_kernels": False,
